@@ -225,6 +225,27 @@ def layout(name, version):
     raise KeyError(name)
 
 
+# 'absent' entries: core packets that, beyond doubt, do not exist in a release
+#   play Set Compression (clientbound 0x46) exists in 1.8.x only; from 1.9 on
+#     compression is negotiated in the login state alone and 0x46 is another
+#     packet (Update Sign in 1.9);
+#   Teleport Confirm (serverbound) was introduced in 1.9 together with the
+#     teleport id of the clientbound Player Position And Look;
+#   Login Plugin Request / Response were introduced in 1.13.
+def absent(version):
+    """Core packet names documented NOT to exist in this release."""
+    if version not in ERA_OF:
+        raise KeyError(version)
+    out = []
+    if version >= 107:
+        out.append('play.set_compression')
+    if version == 47:
+        out.append('sb.play.teleport_confirm')
+    if version < 393:
+        out += ['login.plugin_request', 'sb.login.plugin_response']
+    return out
+
+
 # what this table deliberately leaves unjudged (reported in C07's evidence)
 NOT_JUDGED = [
     'numeric interpretation of VarInt fields (signed vs 2^32-wrapped): only '
@@ -232,8 +253,9 @@ NOT_JUDGED = [
     'signedness of Join Game "previous gamemode" (documented Unsigned Byte in '
     '1.16/1.16.1, Byte with -1 = none from 1.16.2): one byte either way',
     'semantic range limits (string length caps, enum ranges): not layout',
-    'absence of a packet from a release (e.g. Teleport Confirm in 1.8, login '
-    'plugin messages before 1.13): only presence is published per release',
+    'absence of a packet from a release other than the three documented '
+    'removals/introductions listed by absent(): play Set Compression after '
+    '1.8, Teleport Confirm before 1.9, login plugin messages before 1.13',
     'NBT inside Join Game: only TAG_Byte/Short/Int/Long/Float/Double/String/'
     'List/Compound with BMP names; the real dimension codec content is not '
     'transcribed',
@@ -559,6 +581,16 @@ def _selftest_layouts():
                 else:
                     assert back[f] == vals[f], (name, v, f)
     assert layout('sb.play.teleport_confirm', 47) is None
+    every = set(n for v in RELEASES for n in ids(v))
+    for v in RELEASES:      # each core name is either present or absent
+        assert not set(absent(v)) & set(ids(v)), v
+        assert set(absent(v)) | set(ids(v)) == every, v
+    assert absent(47) == ['sb.play.teleport_confirm', 'login.plugin_request',
+                          'sb.login.plugin_response']
+    assert absent(107) == ['play.set_compression', 'login.plugin_request',
+                           'sb.login.plugin_response']
+    assert absent(340) == absent(107) and absent(393) == absent(757) == \
+        ['play.set_compression']
     assert layout('login.plugin_request', 340) is None
     assert len(names) == 23, sorted(names)
     return True
